@@ -116,6 +116,7 @@ def run(ctx):
     lines = ["INFO"] + ["%s %d %s" % (cfg, s, " ".join(ops)) for cfg, s, ops, _ in cases]
     rc, out = ctx.run([impl, "-dir", work], input="\n".join(lines) + "\n", timeout=300)
     ol = out.splitlines()
+    ctx.log("implementation ran %d histories" % len(cases))
     if rc != 0 or len(ol) != len(lines):
         ctx.broken("correspondence(c36:run)", "impl rc=%d lines=%d/%d %s" % (rc, len(ol), len(lines), out[-400:]))
         return
